@@ -52,7 +52,7 @@ STATELY = os.path.join(os.path.dirname(observe.REPO_SRC), "tests", "tests_cli", 
 
 def chunks(tier, seed):
     return [{"name": f"C17-{tier}-{i}", "prop": ID, "tier": tier, "seed": seed, "chunk": i,
-             "timeout": 900 if tier == "quick" else 3000} for i in range(NCHUNKS)]
+             "timeout": 900 if tier == "quick" else 7000} for i in range(NCHUNKS)]
 
 
 # ---------------------------------------------------------------------------
@@ -846,8 +846,8 @@ def run_chunk(spec):
     wd = Watchdog(res, 400.0)
     rng = rng_for(spec["seed"], ID, ci, "plan")
     jobs = []
-    n_gen = 4 if tier == "quick" else 110
-    n_host = 2 if tier == "quick" else 40
+    n_gen = 4 if tier == "quick" else 60
+    n_host = 2 if tier == "quick" else 20
     only = spec.get("only_case")
     for j in range(n_gen):
         idx = ci * 100000 + j
@@ -855,9 +855,9 @@ def run_chunk(spec):
     for j in range(n_host):
         idx = ci * 100000 + 50000 + j
         jobs.append(("hostile", idx, None))
-    for j in range(2 if tier == "quick" else 30):
+    for j in range(2 if tier == "quick" else 14):
         jobs.append(("hostile-id", ci * 100000 + 60000 + j, None))
-    for j in range(1 if tier == "quick" else 16):
+    for j in range(1 if tier == "quick" else 6):
         jobs.append(("counter", ci * 100000 + 70000 + j, None))
     stately = sorted(os.listdir(STATELY)) if os.path.isdir(STATELY) else []
     mine = [f for i, f in enumerate(stately) if i % NCHUNKS == ci]
@@ -874,7 +874,6 @@ def run_chunk(spec):
         elif family == "hostile":
             cfg = hostile_config(rng_for(spec["seed"], ID, ci, idx, "host"))
         elif family == "hostile-id":
-            nper = 2 if tier == "quick" else 30
             j_ = idx - (ci * 100000 + 60000)
             cfg = hostile_id_config(spec, idx, rng_for(spec["seed"], ID, ci, idx, "hostid"),
                                     ordinal=(j_ * NCHUNKS + ci) if tier == "quick" else (j_ + 2 * ci))
